@@ -373,7 +373,11 @@ func runWorker(exe, id, tier, unit, out string, deadline time.Time, seed int) *R
 	attempt := func() (*Result, string) {
 		os.Remove(out)
 		cmd := exec.Command(exe, "unit", id, tier, unit, out, strconv.FormatInt(deadline.Unix(), 10), strconv.Itoa(seed))
-		cmd.Env = append(os.Environ(), "GOMAXPROCS=2")
+		tmpd := out + ".tmp"
+		os.MkdirAll(tmpd, 0755)
+		defer os.RemoveAll(tmpd)
+		// private TMPDIR on tmpfs: kevo serialises bloom filters through temp files and a shared on-disk /tmp serialises the workers
+		cmd.Env = append(os.Environ(), "GOMAXPROCS=1", "GOGC=400", "TMPDIR="+tmpd)
 		var stderr strings.Builder
 		cmd.Stderr = &stderr
 		cmd.SysProcAttr = &syscall.SysProcAttr{Setpgid: true}
